@@ -251,6 +251,33 @@ PROPS["C03"] = {
                          "C03_cache_inv_step (store_validated_certificate preserves CacheInv): not stated"],
 }
 
+PROPS["C07"] = {
+    "lean_modules": ["MithrilModel.Properties.C07"],
+    "theorems": ["C07.C07_iff", "C07.C07_stake_from_distribution", "C07.C07_window", "C07.C07_window_empty",
+                 "C07.C07_kes_bound_to_opcert", "C07.C07_duplicate_rejected", "Registration.register_iff"],
+    "level_text": "Acceptance of a registration is proved EQUIVALENT, in Lean, to the conjunction the property lists (an iff, so a missing or "
+                  "mis-bound conjunct cannot hide), with the recorded stake read from the distribution only and the KES window exactly e-1..e+1 "
+                  "capped at 64. The decision model is compared (verdict, error class, party id, recorded stake) with the real "
+                  "KeyRegWrapper::register, built without allow_skip_signer_certification, on a valid registration and on every "
+                  "single-component alteration and all 2-splices of two pools' components, with real cold/KES/BLS keys; every accepted case "
+                  "is re-checked clause by clause with the real primitives.",
+    "level_note": "Ed25519 (op-cert), Sum6 KES verification, BLS proof of possession and the bech32 pool id are uninterpreted primitives of the "
+                  "model whose verdicts the harness obtains from the real libraries. The aggregator's MithrilSignerRegistrationVerifier "
+                  "(KES period arithmetic around this function) is exercised in the aggregator harness, not here.",
+    "harness": [("harness", "c07")],
+    "anchors": ["mithril-common/src/crypto_helper/cardano/key_certification.rs", "mithril-common/src/crypto_helper/cardano/opcert.rs",
+                "mithril-common/src/crypto_helper/cardano/kes/verifier_standard.rs", "mithril-stm/src/protocol/key_registration/registration_entry.rs",
+                "mithril-stm/src/protocol/key_registration/register.rs"],
+    "rule": "for op-cert start periods {0,7} (+100 thorough) and signed KES evolutions {0,1,5,63} (+2,30,62): the valid registration, announced "
+            "evolutions none/0/1/t-2..t+2/62..66/2^32/2^64-1, op-cert missing / each field altered / other pool's, KES signature missing / other "
+            "pool's key / over another key, verification key and proof of possession swapped (with and without re-signing), all 2-splices, "
+            "distributions with the pool absent / stake 0 / huge, claimed party ids, duplicate keys; all non-trivial; distinct request lines",
+    "trivial_tags": [],
+    "trusted_base": ["rustc/cargo; harness bin c07; ed25519-dalek, kes-summed-ed25519, blst, bech32"],
+    "assumptions": ["mithril-common built without the allow_skip_signer_certification feature (as the harness does)"],
+    "goals_not_proved": ["C07_aggregator_verifier (aggregator-side wrapper = this function with e = current - start): not modelled here"],
+}
+
 
 # property configurations contributed as separate files: props.d/Cxx.py defines `CONFIG = {...}`
 import glob as _glob, os as _os, importlib.util as _ilu
